@@ -438,6 +438,25 @@ theorem image_section_byte_tampered_v20 (h : CryptoLaws c) (cfg : Cfg) (signed :
     · have := hcert rfl; simp only [if_true]; omega
   exact romV20_section_byte_tampered h cfg signed wf i v (by omega) (by omega) hv
 
+/-- one changed byte in the header-MAC field (bytes 96..127) of an SB 2.1 file: always refused — the ROM recomputes the
+    HMAC over the first section's MAC table and compares; no crypto assumption -/
+theorem header_mac_byte_tampered_v21 (h : CryptoLaws c) (cfg : Cfg) (wf : Spec.WF21 cfg) (i : Nat) (v : UInt8)
+    (h1 : 96 ≤ i) (h2 : i < 128) (hv : some v ≠ (buildV21 c cfg)[i]?) :
+    Rom.romV21 c cfg.kek ((buildV21 c cfg).set i v) = .error .badHeaderMac :=
+  romV21_hmac_byte_tampered h cfg wf i v h1 h2 hv
+
+/-- one changed byte in the SHA-256 field (present with flag 0x8000, in front of the signature; without the flag the range
+    `[offsetToCert + |cert|, signedLen)` is empty): always refused.
+    Region map of an SB 2.1 file: header, key blob, certificate block → `signed_range_tamper` (signature forgery);
+    header MAC, SHA-256 → refused unconditionally (these two; they are inside the signed range as well);
+    boot sections → `image_section_byte_tampered_v21` (HMAC forgery); signature bytes → not covered (existential forgery). -/
+theorem sha_byte_tampered_v21 (h : CryptoLaws c) (cfg : Cfg) (wf : Spec.WF21 cfg) (i : Nat) (v : UInt8)
+    (h1 : (Spec.expected21 cfg).offsetToCert + cfg.certBlock.length ≤ i)
+    (h2 : i < (Spec.expected21 cfg).signedLen) (hv : some v ≠ (buildV21 c cfg)[i]?) :
+    Rom.romV21 c cfg.kek ((buildV21 c cfg).set i v) = .error .badSha := by
+  have e : (Spec.expected21 cfg).signedLen = 208 + cfg.certBlock.length + shaLen21 cfg := rfl
+  exact romV21_sha_byte_tampered h cfg wf i v h1 (by omega) hv
+
 /-- the same for exactly the compiled primitives the driver runs -/
 theorem exec_image_section_byte_tampered_v21 (cfg : Cfg) (wf : Spec.WF21 cfg) (i : Nat) (v : UInt8)
     (hi1 : (Spec.expected21 cfg).firstBootTagBlock * 16 ≤ i) (hi2 : i < (buildV21 Crypto.execOps cfg).length)
@@ -480,6 +499,8 @@ example : ((Parse.parsedOf21 demoCfg).sections.map (fun s => (s.uid, s.hmacCount
 example : Spec.WF21 demoCfg := by decide +kernel
 /-- hypotheses of `image_section_byte_tampered_v21` are satisfiable: byte 656 (first section's encrypted header) exists -/
 example : (Spec.expected21 demoCfg).firstBootTagBlock * 16 = 656 ∧ 656 < Spec.fileLen21 demoCfg := by decide +kernel
+example : demoCfg.flags / 0x8000 % 2 = 1 ∧ (Spec.expected21 demoCfg).offsetToCert + demoCfg.certBlock.length = 368 ∧
+    (Spec.expected21 demoCfg).signedLen = 400 := by decide +kernel
 example : Parse.kekLenOk (List.replicate 17 1) = false ∧ Parse.kekLenOk [] = false := by decide
 example : (Spec.expected20 demoCfg true).firstBootTagBlock * 16 = 448 ∧ 448 < (Spec.expected20 demoCfg true).imageBlocks * 16 ∧
     (Spec.expected20 demoCfg false).firstBootTagBlock * 16 = 208 ∧ 208 < (Spec.expected20 demoCfg false).imageBlocks * 16 := by decide +kernel
